@@ -249,7 +249,7 @@ def unit_c18_table():
                 p = os.path.join(tmp, name)
                 with open(p, "w", encoding="utf-8", newline="") as f: f.write(text)
                 return p
-            cids = {"valid": w("cid.csv", "d,format,delimited\nf,id,,,,Integer\nf,name\nc,u,IsUnique,id\n"), "rejected": w("bad.csv", "d,format,delimited\nf,id,,,,NoSuchType\n"), "missing": os.path.join(tmp, "nocid.csv")}
+            cids = {"valid": w("cid.csv", "d,format,delimited\nf,id,,,,Integer\nf,name\nc,u,IsUnique,id\nc,few names,DistinctCount,name <= 2\n"), "rejected": w("bad.csv", "d,format,delimited\nf,id,,,,NoSuchType\n"), "missing": os.path.join(tmp, "nocid.csv")}
             os.mkdir(os.path.join(tmp, "dir"))
             files = {"accepted": (w("a.csv", "1,x\n2,y\n"), 0), "field": (w("f.csv", "1,x\nq,y\n"), 1), "unique": (w("u.csv", "1,x\n1,y\n"), 1), "sibling": (w("s.csv", "1,z\n2,z\n"), 0),
                      "missing": (os.path.join(tmp, "nofile.csv"), 3), "directory": (os.path.join(tmp, "dir"), 3)}
